@@ -20,8 +20,8 @@ pub struct Case {
 }
 
 pub const TARGETS: [&str; 3] = ["BTreeMap<Tree,Tree>", "Vec<(Tree,Tree)> collector", "struct{a,b:Option<Tree>}"];
-pub const KEY_LABELS: [&str; 12] =
-    ["a", "\"a\"", "'a'", "b", "1", "!!str a", "[a]", "[a, b]", "{a: 1}", "{b: 2, a: 1}", "*ka", "!t a"];
+pub const KEY_LABELS: [&str; 13] =
+    ["a", "\"a\"", "'a'", "b", "1", "!!str a", "[a]", "[a, b]", "{a: 1}", "{b: 2, a: 1}", "*ka", "!t a", "!u a"];
 pub const VAL_LABELS: [&str; 5] = ["1", "[1, [2, {c: 3}]]", "{d: {e: [f]}}", "*vc", "|literal"];
 
 fn key_node(i: u8) -> Node {
@@ -38,7 +38,9 @@ fn key_node(i: u8) -> Node {
         8 => Node::map(vec![(p("a"), p("1"))]).flowed(),
         9 => Node::map(vec![(p("b"), p("2")), (p("a"), p("1"))]).flowed(),
         10 => Node::alias("ka"),
-        _ => p("a").tagged("!t"),
+        11 => p("a").tagged("!t"),
+        // a second application tag: the same text under another tag is another key
+        _ => p("a").tagged("!u"),
     }
 }
 
